@@ -523,6 +523,17 @@ func recordHistory(t *testing.T, tw *tracelog.Writer, seed int64, nops, drainEve
 	}
 	randRange := func() (int64, int64) {
 		c := curTick()
+		// adjacent to an existing position: shares a boundary tick with it
+		if ps := w.snapshot(w.Ctx).Pos; len(ps) > 0 && rng.Intn(7) == 0 {
+			q := ps[rng.Intn(len(ps))]
+			wd := int64(1+rng.Intn(60)) * w.space
+			if rng.Intn(2) == 0 && q.Hi+wd <= types.MaxTick {
+				return q.Hi, q.Hi + wd
+			}
+			if q.Lo-wd >= types.MinInitializedTick {
+				return q.Lo - wd, q.Lo
+			}
+		}
 		switch r := rng.Intn(20); {
 		case r == 0: // full range
 			return roundSp(types.MinInitializedTick), roundSp(types.MaxTick)
@@ -765,6 +776,42 @@ func recordHistory(t *testing.T, tw *tracelog.Writer, seed int64, nops, drainEve
 			ev.Res = map[string]any{"a0": apphelp.BigI(resp.Amount0), "a1": apphelp.BigI(resp.Amount1)}
 		}
 		emit(ev)
+	}
+
+	// two positions sharing a boundary tick are brought to EXACTLY the same liquidity by a partial
+	// withdrawal: the shared tick then has net liquidity zero while still being used by both
+	doEqualize := func() {
+		ps := livePos()
+		for _, a := range ps {
+			for _, b := range ps {
+				if a.ID == b.ID || a.Hi != b.Lo || a.Lock == 1 || b.Lock == 1 {
+					continue
+				}
+				la, lb := tracelog.DecBig(a.Liq), tracelog.DecBig(b.Liq)
+				big, diff := b, new(stdbig.Int).Sub(lb, la)
+				if diff.Sign() < 0 {
+					big, diff = a, diff.Neg(diff)
+				}
+				if diff.Sign() == 0 {
+					continue
+				}
+				amt := osmomath.NewDecFromBigIntWithPrec(diff, 18)
+				ev := &event{Op: "withdraw", Who: big.Own, Args: map[string]any{"id": big.ID, "liq": apphelp.BigD(amt), "equalize": true}}
+				m := &types.MsgWithdrawPosition{PositionId: big.ID, Sender: w.users[big.Own-1].String(), LiquidityAmount: amt}
+				var resp *types.MsgWithdrawPositionResponse
+				o := w.Try(func(ctx sdk.Context) error {
+					var err error
+					resp, err = w.msg.WithdrawPosition(ctx, m)
+					return err
+				})
+				outc(ev, o)
+				if o.OK {
+					ev.Res = map[string]any{"a0": apphelp.BigI(resp.Amount0), "a1": apphelp.BigI(resp.Amount1)}
+				}
+				emit(ev)
+				return
+			}
+		}
 	}
 
 	doAdd := func() {
@@ -1042,7 +1089,9 @@ func recordHistory(t *testing.T, tw *tracelog.Writer, seed int64, nops, drainEve
 			doCreate(true)
 			continue
 		}
-		switch r := rng.Intn(104); {
+		switch r := rng.Intn(107); {
+		case r >= 104:
+			doEqualize()
 		case r >= 102:
 			doBeginUnlock()
 		case r >= 100:
